@@ -318,30 +318,30 @@ def names_in_macro_bodies(ir) -> set:
 
 
 def scope_label_sites(ir):
-    """[(scope_steps, label name, scope name or None)] for labels defined outside macro bodies.
+    """[(scope_steps, label name, scope name or None, parent_scope_steps)] for labels defined outside macro bodies.
     scope_steps: navigation ((index, key), ...) from the root list to the statement list of the scope
     that owns the label (labels inside .if branches / includes belong to the enclosing scope)."""
     sites = []
 
-    def go(stmts, steps, scope_steps, scope_name):
+    def go(stmts, steps, scope_steps, scope_name, parent_steps):
         for i, st in enumerate(stmts):
             k = st["k"]
             if k == "label":
-                sites.append((scope_steps, st["n"], scope_name))
+                sites.append((scope_steps, st["n"], scope_name, parent_steps))
             elif k in ("block", "for"):
                 ns = steps + ((i, "b"),)
-                go(st["b"], ns, ns, None)
+                go(st["b"], ns, ns, None, scope_steps)
             elif k == "scope":
                 ns = steps + ((i, "b"),)
-                go(st["b"], ns, ns, st["n"])
+                go(st["b"], ns, ns, st["n"], scope_steps)
             elif k == "include":
-                go(st["b"], steps + ((i, "b"),), scope_steps, scope_name)
+                go(st["b"], steps + ((i, "b"),), scope_steps, scope_name, parent_steps)
             elif k == "if":
-                go(st["t"], steps + ((i, "t"),), scope_steps, scope_name)
+                go(st["t"], steps + ((i, "t"),), scope_steps, scope_name, parent_steps)
                 if st.get("e") is not None:
-                    go(st["e"], steps + ((i, "e"),), scope_steps, scope_name)
+                    go(st["e"], steps + ((i, "e"),), scope_steps, scope_name, parent_steps)
 
-    go(ir, (), (), None)
+    go(ir, (), (), None, ())
     return sites
 
 
@@ -370,7 +370,7 @@ def _defines(stmts, name) -> bool:
     return False
 
 
-def rename_in_scope(ir, path, old, new, scope_name):
+def rename_in_scope(ir, path, old, new, scope_name, parent_path=()):
     """rename the label `old` defined in the scope at `path` (tuple of statement indexes through
     block/scope/for statements) and every reference that resolves to it lexically"""
     ir = copy.deepcopy(ir)
@@ -414,8 +414,8 @@ def rename_in_scope(ir, path, old, new, scope_name):
 
     ren_scope(navigate(ir, path))
     if scope_name is not None:
-        # scope names are unique: the qualified name can only mean this label
-        ren_qualified(ir, f"{scope_name}.{old}", f"{scope_name}.{new}")
+        # scope.old is visible in the scope that contains the named scope (and below it)
+        ren_qualified(navigate(ir, parent_path), f"{scope_name}.{old}", f"{scope_name}.{new}")
     return ir
 
 
